@@ -100,8 +100,11 @@ def rand_do(rnd, sp):
         from harness import refcal as R_
         while True:
             t = c20.rand_trunc(rnd, m, p)
-            if rnd.random() < 0.5:
+            x_ = rnd.random()
+            if x_ < 0.4:
                 t.update(dom=min(rnd.choice([29, 30, 31]), max(R_.ML[m][1])), doy=0, dow=0, woy=0)
+            elif x_ < 0.6:
+                t.update(dom=0, doy=0, dow=rnd.randint(1, 7), woy=53)        # week 53: exists in some years of some modes, never in a 360-day one
             # (the class of C20's recorded finding - minute/second without hour plus a day designator - is left to C20)
             if c20.classify({"t": t}, {"clause": "not-the-earliest-time-of-day"}, []) is None:
                 break
